@@ -17,6 +17,13 @@ set read-only so that ANY in-place write raises):
         np.random.Generator subclass, fed to the Coq model as inputs (`check_bcase (BB ...)`), displacement checked
         exactly in Q on dyadic spaces and within 2^-40 relative on decimal spaces.
 Direct oracle (Python Fractions, independent of the Coq model): the property statement on the observations.
+
+Round 4 (generator sweep, see design.d/C16.md): the same three parts on float32 / int64 / strided-view / Fortran histories
+(`materialise`), on ONE sampler object reused by its caller (other history of the same / another length, the same arrays
+overwritten in place, the returned batch fed back as history, another search space, a rejected call in the middle, direct
+sample_batch(k) calls), with public attributes assigned after construction and between calls (`ctor`, `attrs`), in
+non-default configurations (`build_configured`), at the 500-point threshold of the GP sampler, with almost-tied / signed-zero /
+far-level losses and predictions, and with memoising / view-returning / read-only user predictions and pools.
 """
 from __future__ import annotations
 
@@ -44,6 +51,7 @@ SURROGATES = ("rf", "xgb", "gp", "stub")
 F32MAX = 3.4028234663852886e38
 TOL = Fraction(1, 1 << 40)
 SNAP_NUM, SNAP_DEN = (1 << 50) + 1, 1 << 50
+MARGIN = {"bb_tolerant_max_error_over_tolerance": 0.0, "bb_tolerant_min_step_over_tolerance": float("inf")}
 
 
 def H(x):
@@ -73,7 +81,21 @@ def alarm(seconds):
 
 
 def snapshot(a):
-    return (a.tobytes(), a.dtype.str, tuple(a.shape), bool(a.flags.writeable))
+    # contents (C-order bytes of the elements the array addresses), dtype, shape, writeable flag, strides
+    return (a.tobytes(), a.dtype.str, tuple(a.shape), bool(a.flags.writeable), tuple(a.strides))
+
+
+def snap_values(sn):
+    """(shape, float64 values as bytes) of a snapshot: the history as VALUES, whatever its dtype (round 4)"""
+    try:
+        a = np.frombuffer(sn[0], dtype=sn[1]).reshape(sn[2])
+        return (tuple(sn[2]), np.asarray(a, dtype=np.float64).tobytes())
+    except (TypeError, ValueError):
+        return (tuple(sn[2]), sn[0], sn[1])
+
+
+def same_float(a, b):
+    return float(a).hex() == float(b).hex()
 
 
 # ------------------------------------------------------------------ instrumentation
@@ -130,8 +152,16 @@ def patched(pairs):
             setattr(m, n, v)
 
 
+NP_SCALAR = {"int": np.int64, "float": np.float64}
+
+
 def build_sampler(case):
+    """The sampler of the case.  Round 4: `case["ctor"]` holds constructor-time values that DIFFER from the values in
+    force (`case["bs"]`, `opts["range"]`, `opts["a"]`, `opts["b"]`, `opts["passes"]`): the object is built with the
+    former and the public attributes are then assigned the latter - the value in force is the assigned one."""
     kind, bs, seed, o = case["kind"], case["bs"], case["seed"], case.get("opts", {})
+    ct = case.get("ctor") or {}
+    bs0 = ct.get("bs", bs)
     if kind == "stub":
         from black_it.samplers.surrogate import MLSurrogateSampler
 
@@ -139,17 +169,31 @@ def build_sampler(case):
             def __init__(self):
                 # the constructor rejects candidate_pool_size < batch_size (b8551a2); an overriding sample_candidates may
                 # still return a smaller pool, which sample_batch must handle as the model says (min k |pool| rows)
-                super().__init__(bs, random_state=seed, candidate_pool_size=max(o["pool_size"], bs),
-                                 max_deduplication_passes=o.get("passes", 5))
+                super().__init__(bs0, random_state=seed, candidate_pool_size=max(o["pool_size"], bs0),
+                                 max_deduplication_passes=ct.get("passes", o.get("passes", 5)))
                 self.ncall = 0
+                self.nfit = 0
+                self.memo = {}
+                self.pools = {}
 
             def sample_candidates(self, n, ss, pts, los):
                 if o["pool"] == "real":
                     return super().sample_candidates(n, ss, pts, los)
-                rows = o["pool_rows"][self.ncall % len(o["pool_rows"])]
+                i = self.ncall % len(o["pool_rows"])
+                rows = [r[: ss.dims] + r[:1] * (ss.dims - len(r)) for r in o["pool_rows"][i]]
+                if o.get("pool_memo"):  # a memoising user pool: the SAME read-only array object every time (round 4)
+                    key = (i, ss.dims)
+                    if key not in self.pools:
+                        a = np.array([[F(x) for x in r] for r in rows], dtype=float).reshape(len(rows), ss.dims)
+                        a.flags.writeable = False
+                        self.pools[key] = a
+                    return self.pools[key]
                 return np.array([[F(x) for x in r] for r in rows], dtype=float).reshape(len(rows), ss.dims)
 
             def fit(self, X, y):  # noqa: N803
+                self.nfit += 1
+                if self.nfit in o.get("fit_raises", ()):
+                    raise RuntimeError("stub fit failure (scripted)")
                 self.seen = (X.shape, y.shape)
 
             def predict(self, X):  # noqa: N803
@@ -168,16 +212,120 @@ def build_sampler(case):
                     return np.round(np.sin(X.sum(axis=1) * 7.0), 1)
                 if mode == "huge":
                     return g.choice([1e300, -1e300, 5e-324, 0.0, -0.0, 1.0], n)
+                # ---- round 4: representations of the returned predictions
+                if mode == "view":  # a (strided) VIEW of the pool handed to predict: writing into it changes the pool
+                    return X[:, 0]
+                if mode == "memo":  # a memoising surrogate: the same read-only array object for the same pool size
+                    if n not in self.memo:
+                        a = np.random.default_rng(seed + n).standard_normal(n).round(1)
+                        a.flags.writeable = False
+                        self.memo[n] = a
+                    return self.memo[n]
+                if mode == "bcast":  # a constant surrogate returning a read-only broadcast view (all ties)
+                    return np.broadcast_to(np.float64(-1.5), (n,))
+                if mode == "f32":  # float32 predictions, like XGBRegressor.predict
+                    return g.standard_normal(n).astype(np.float32)
+                if mode == "close":  # predictions that differ in the last bits only (equal under isclose / float32)
+                    return 1.0 + g.integers(0, 4, n) * 2.0 ** -52
+                if mode == "far":  # large level, O(1) differences (equal in float32)
+                    return 1e8 + g.integers(0, 5, n).astype(float)
+                if mode == "tiny":  # subnormal / signed-zero predictions
+                    return g.choice([5e-324, 1e-323, 0.0, -0.0, -5e-324, 2.5e-320], n)
                 return g.standard_normal(n)
 
-        return Stub()
+        sm_ = Stub()
+        if "bs" in ct:
+            sm_.batch_size = bs
+        if "passes" in ct:
+            sm_.max_deduplication_passes = o.get("passes", 5)
+        return sm_
     if kind == "bestbatch":
         from black_it.samplers.best_batch import BestBatchSampler
 
-        return BestBatchSampler(bs, random_state=seed, a=o["a"], b=o["b"], perturbation_range=o["range"])
-    from props.real_lineups import make_sampler
+        a0, b0, r0 = ct.get("a", o["a"]), ct.get("b", o["b"]), ct.get("range", o["range"])
+        k0 = bs0
+        if o.get("np_scalars"):  # numpy scalars as option values
+            a0, b0, r0, k0 = np.float64(a0), np.float32(b0), np.int64(r0), np.int64(bs0)
+        if o.get("int_ab"):  # integer-typed a / b
+            a0, b0 = int(a0), int(b0)
+        extra = {"max_deduplication_passes": ct.get("passes", o["passes"])} if "passes" in o else {}
+        s_ = BestBatchSampler(k0, random_state=seed, a=a0, b=b0, perturbation_range=r0, **extra)
+        if "bs" in ct:
+            s_.batch_size = bs
+        if "range" in ct:
+            s_.perturbation_range = o["range"]
+        if "a" in ct:
+            s_.a = o["a"]
+        if "b" in ct:
+            s_.b = o["b"]
+        if "passes" in ct:
+            s_.max_deduplication_passes = o["passes"]
+        return s_
+    if o.get("cfg"):
+        s_ = build_configured(kind, bs0, seed, o, ct)
+    else:
+        from props.real_lineups import make_sampler
 
-    return make_sampler(kind, bs, seed)
+        s_ = make_sampler(kind, bs0, seed)
+    if "bs" in ct:
+        s_.batch_size = bs
+    if "passes" in ct:
+        s_.max_deduplication_passes = o.get("passes", 5)
+    return s_
+
+
+def build_configured(kind, bs, seed, o, ct):
+    """Round 4: the built-in samplers in non-default configurations (real_lineups.make_sampler gives the default ones)."""
+    passes = ct.get("passes", o.get("passes", 5))
+    if kind == "halton":
+        from black_it.samplers.halton import HaltonSampler
+
+        return HaltonSampler(batch_size=bs, random_state=seed, max_deduplication_passes=passes)
+    if kind == "rseq":
+        from black_it.samplers.r_sequence import RSequenceSampler
+
+        return RSequenceSampler(batch_size=bs, random_state=seed, max_deduplication_passes=passes)
+    if kind == "uniform":
+        from black_it.samplers.random_uniform import RandomUniformSampler
+
+        return RandomUniformSampler(batch_size=bs, random_state=seed, max_deduplication_passes=passes)
+    if kind == "pso":
+        from black_it.samplers.particle_swarm import ParticleSwarmSampler
+
+        return ParticleSwarmSampler(batch_size=bs, random_state=seed, inertia=o.get("inertia", 0.9), c1=o.get("c1", 0.1),
+                                    c2=o.get("c2", 0.1), global_minimum_across_samplers=bool(o.get("pso_global", False)))
+    if kind == "cors":
+        from black_it.samplers.cors import CORSSampler
+
+        return CORSSampler(batch_size=bs, max_samples=o.get("max_samples", 40), rho0=o.get("rho0", 0.5), p=o.get("p", 1.0),
+                           random_state=seed, verbose=bool(o.get("verbose", False)))
+    if kind == "rf":
+        from black_it.samplers.random_forest import RandomForestSampler
+
+        return RandomForestSampler(batch_size=bs, random_state=seed, candidate_pool_size=o.get("pool", 40), n_estimators=8,
+                                   n_classes=o.get("n_classes", 3), criterion=o.get("criterion", "gini"),
+                                   max_deduplication_passes=passes)
+    if kind == "xgb":
+        from black_it.samplers.xgboost import XGBoostSampler
+
+        return XGBoostSampler(batch_size=bs, random_state=seed, candidate_pool_size=o.get("pool", 40),
+                              n_estimators=o.get("n_estimators", 4), max_depth=o.get("max_depth", 2),
+                              max_deduplication_passes=passes)
+    if kind == "gp":
+        from black_it.samplers.gaussian_process import GaussianProcessSampler
+
+        return GaussianProcessSampler(batch_size=bs, random_state=seed, candidate_pool_size=o.get("pool", 40),
+                                      optimize_restarts=o.get("restarts", 1), acquisition=o.get("acq", "expected_improvement"),
+                                      jitter=o.get("jitter", 0.1), max_deduplication_passes=passes)
+    raise ValueError(kind)
+
+
+def apply_attrs(sampler, attrs, kind, events):
+    """Round 4: public attributes assigned after construction (the value in force is the assigned one)."""
+    for name, val in (attrs or {}).items():
+        setattr(sampler, name, val)
+        if name == "random_state" and kind == "bestbatch":  # the setter makes a new generator: record that one
+            sampler._BaseSeedable__random_generator = make_recgen(sampler.random_generator, events)  # noqa: SLF001
 
 
 def instrument(case, sampler, events):
@@ -274,51 +422,168 @@ def instrument(case, sampler, events):
 
 
 # ------------------------------------------------------------------ implementation driver
-def make_space(case):
+def space_dict(case):
+    return {k: case[k] for k in ("lower", "upper", "prec", "exact")}
+
+
+def make_space(sp):
     from black_it.search_space import SearchSpace
 
-    lo, up, pr = ([F(x) for x in case[k]] for k in ("lower", "upper", "prec"))
+    lo, up, pr = ([F(x) for x in sp[k]] for k in ("lower", "upper", "prec"))
     return SearchSpace([lo, up], pr, False)
 
 
+DTYPES = {"f4": np.float32, "i8": np.int64, "f2": np.float16, "i4": np.int32}
+SENTINEL = 777.25
+
+
+def materialise(rows, losses, dims, rp):
+    """The history arrays in the representation rp = {"pts": ..., "los": ...} (round 4).  Returns (pts, los, bases):
+    `bases` are the arrays the views are taken from (their other elements must stay intact too)."""
+    n = len(rows)
+    P = np.array([[F(x) for x in r] for r in rows], dtype=float).reshape(n, dims)  # noqa: N806
+    Lv = np.array([F(x) for x in losses], dtype=float)  # noqa: N806
+    bases = []
+    pr, lr = (rp or {}).get("pts", "f8"), (rp or {}).get("los", "f8")
+    if pr in DTYPES:
+        pts = P.astype(DTYPES[pr])
+    elif pr == "fortran":
+        pts = np.asfortranarray(P)
+    elif pr == "rows2":  # every second row of a longer table
+        base = np.full((2 * n + 1, dims), SENTINEL)
+        pts = base[1:2 * n:2]
+        pts[...] = P
+        bases.append(base)
+    elif pr == "cols":  # the parameter columns of a wider table
+        base = np.full((n, dims + 2), SENTINEL)
+        pts = base[:, 1:dims + 1]
+        pts[...] = P
+        bases.append(base)
+    elif pr == "rev":  # negative strides
+        base = P[::-1].copy()
+        pts = base[::-1]
+        bases.append(base)
+    else:
+        pts = P
+    if lr in DTYPES:
+        with np.errstate(all="ignore"):
+            los = Lv.astype(DTYPES[lr])
+    elif lr == "step2":
+        base = np.full(2 * len(Lv) + 1, SENTINEL)
+        los = base[1:2 * len(Lv):2]
+        los[...] = Lv
+        bases.append(base)
+    elif lr == "col":  # one column of a 2-D table of results
+        base = np.full((len(Lv), 3), SENTINEL)
+        los = base[:, 1]
+        los[...] = Lv
+        bases.append(base)
+    elif lr == "rev":
+        base = Lv[::-1].copy()
+        los = base[::-1]
+        bases.append(base)
+    else:
+        los = Lv
+    return pts, los, bases
+
+
+def set_writeable(arrs, bases, flag):
+    for a in (list(bases) + list(arrs)) if flag else (list(arrs) + list(bases)):
+        with contextlib.suppress(ValueError):
+            a.flags.writeable = flag
+
+
+def full_snapshot(pts, los, bases):
+    return (snapshot(pts), snapshot(los), tuple(b.tobytes() for b in bases))
+
+
 def run_case(case, readonly):
-    """One case on the real code.  Returns the observations (numpy arrays inside; see `jsonable`)."""
-    ss = make_space(case)
-    dims = ss.dims
-    pts = np.array([[F(x) for x in r] for r in case["pts"]], dtype=float).reshape(len(case["pts"]), dims)
-    los = np.array([F(x) for x in case["losses"]], dtype=float)
+    """One case on the real code.  Returns the observations (numpy arrays inside; see `jsonable`).
+
+    Round 4: `case["repr"]` = representation of the first history; `case["steps"][c-1]` = what the caller does before
+    call c >= 1: {"op": "grow" (default: the calibrator's np.concatenate) | "feed_output" (the returned array ITSELF is the
+    next history) | "inplace" (the caller overwrites the SAME array objects) | "same" (the same arrays again) | "other"
+    (new arrays: another length / content, optionally another search space: "space"), "pts", "losses", "repr",
+    "attrs": attributes assigned before the call, "direct_k": call sample_batch(k, ...) directly instead of sample()}."""
+    sp = space_dict(case)
+    ss = make_space(sp)
     sampler = build_sampler(case)
     events = []
     calls = []
     kept = []
+    steps = case.get("steps") or []
+    o = case.get("opts", {})
+    in_force = {"range": o.get("range"), "bs": case["bs"]}
+    pts = los = out = None
+    bases = []
     with patched(instrument(case, sampler, events)):
         for c in range(case["calls"]):
+            step = (case.get("first") or {}) if c == 0 else (steps[c - 1] if c - 1 < len(steps) else {"op": "grow"})
+            op = "init" if c == 0 else step.get("op", "grow")
+            if op == "init":
+                pts, los, bases = materialise(case["pts"], case["losses"], ss.dims, case.get("repr"))
+            elif op == "grow":
+                if out is None:
+                    break
+                nl = np.array([F(x) for x in case["next_losses"][c - 1]][: len(out)], dtype=float)
+                pts = np.concatenate((pts, out))
+                los = np.concatenate((los, nl))
+                bases = []
+            elif op == "feed_output":
+                if out is None:
+                    break
+                pts = out  # the very array the sampler returned
+                los = np.array([F(x) for x in case["next_losses"][c - 1]][: len(out)], dtype=float)
+                bases = []
+            elif op == "inplace":
+                set_writeable((pts, los), bases, True)
+                with np.errstate(all="ignore"):
+                    if step.get("pts") is None:  # the same rows in another order
+                        pts[...] = np.roll(np.array(pts, dtype=float), 1, axis=0)
+                    else:
+                        pts[...] = np.array([[F(x) for x in r] for r in step["pts"]], dtype=float).reshape(pts.shape)
+                    los[...] = np.array([F(x) for x in step["losses"]], dtype=float)
+            elif op == "other":
+                if "space" in step:
+                    sp = step["space"]
+                    ss = make_space(sp)
+                pts, los, bases = materialise(step["pts"], step["losses"], ss.dims, step.get("repr"))
+            # "same": nothing changes
+            attrs = step.get("attrs") or {}
+            apply_attrs(sampler, attrs, case["kind"], events)
+            if "perturbation_range" in attrs:
+                in_force["range"] = int(attrs["perturbation_range"])
+            if "batch_size" in attrs:
+                in_force["bs"] = int(attrs["batch_size"])
             if readonly:
-                pts.flags.writeable = False
-                los.flags.writeable = False
-            s0 = (snapshot(pts), snapshot(los))
-            kept.append((pts, los, s0))
+                set_writeable((pts, los), bases, False)
+            if op == "inplace":
+                # the caller's own change is not the sampler's: refresh the snapshots kept of these objects
+                kept = [(p, l, b, full_snapshot(p, l, b) if (p is pts or l is los) else s0_) for p, l, b, s0_ in kept]
+            s0 = full_snapshot(pts, los, bases)
+            kept.append((pts, los, bases, s0))
             e0 = len(events)
             out, err = None, None
             try:
-                with alarm(60), contextlib.redirect_stdout(io.StringIO()), np.errstate(all="ignore"), \
+                with alarm(case.get("alarm", 60)), contextlib.redirect_stdout(io.StringIO()), np.errstate(all="ignore"), \
                         warnings.catch_warnings():
                     warnings.simplefilter("ignore")
-                    out = sampler.sample(ss, pts, los)
+                    if step.get("direct_k") is not None:
+                        out = sampler.sample_batch(step["direct_k"], ss, pts, los)
+                    else:
+                        out = sampler.sample(ss, pts, los)
             except CallTimeout:
                 err = "Timeout"
             except Exception as e:  # noqa: BLE001
                 err = f"{type(e).__name__}: {str(e)[:160]}"
-            s1 = (snapshot(pts), snapshot(los))
+            s1 = full_snapshot(pts, los, bases)
+            cfg = dict(sp)
+            cfg.update(range=in_force["range"], bs=in_force["bs"], op=op, direct_k=step.get("direct_k"))
             calls.append({"err": err, "out": None if out is None else np.array(out, copy=True),
                           "untouched": s0 == s1, "diff": describe_diff(s0, s1, pts, los, case, c),
-                          "events": events[e0:], "pts": pts, "los": los, "grid": [np.array(g) for g in ss.param_grid]})
-            if out is None or c + 1 == case["calls"]:
-                break
-            nl = np.array([F(x) for x in case["next_losses"][c]][: len(out)], dtype=float)
-            pts = np.concatenate((pts, out))
-            los = np.concatenate((los, nl))
-    later = [i for i, (p, l, s0) in enumerate(kept) if (snapshot(p), snapshot(l)) != s0]
+                          "events": events[e0:], "pts": pts, "los": los, "grid": [np.array(g) for g in ss.param_grid],
+                          "cfg": cfg})
+    later = [i for i, (p, l, b, s0) in enumerate(kept) if full_snapshot(p, l, b) != s0]
     return {"calls": calls, "later_touched": later, "readonly": readonly}
 
 
@@ -328,12 +593,14 @@ def describe_diff(s0, s1, pts, los, case, c):
     d = []
     for name, a0, a1, arr in (("existing_points", s0[0], s1[0], pts), ("existing_losses", s0[1], s1[1], los)):
         if a0[1:] != a1[1:]:
-            d.append(f"{name}: dtype/shape/writeable {a0[1:]} -> {a1[1:]}")
+            d.append(f"{name}: dtype/shape/writeable/strides {a0[1:]} -> {a1[1:]}")
         if a0[0] != a1[0]:
             before = np.frombuffer(a0[0], dtype=a0[1]).reshape(a0[2])
             idx = np.argwhere(~((before == arr) | ((before != before) & (arr != arr))))
             i = tuple(int(x) for x in idx[0]) if len(idx) else ()
             d.append(f"{name}{list(i)}: {before[i]!r} -> {arr[i]!r} ({len(idx)} element(s) changed) during sample() #{c}")
+    if len(s0) > 2 and s0[2] != s1[2]:
+        d.append(f"the array the history is a view of was changed outside / inside the view during sample() #{c}")
     return "; ".join(d)
 
 
@@ -436,9 +703,10 @@ def oracle_surrogate_call(case, call, rec):
     k = rec["k"]
     p0, l0 = rec["pts0"][:3], rec["los0"][:3]  # the arrays as they were when sample_batch was entered
     fx, fy = rec["fit"][1], rec["fit"][2]
-    if (fx[0], fx[1], fx[2]) != p0:
+    # round 4: compared as VALUES (shape + float64 values): the history may be float32 / int64 / a strided view
+    if snap_values(fx) != snap_values(p0):
         fails.append(f"fit: X handed to fit is not existing_points (shape {fx[2]} vs {p0[2]})")
-    if (fy[0], fy[1], fy[2]) != l0:
+    if snap_values(fy) != snap_values(l0):
         fails.append(f"fit: y handed to fit is not existing_losses (shape {fy[2]} vs {l0[2]})")
     pool, preds = rec["pool"], np.asarray(rec["preds"])
     if preds.shape != (len(pool),):
@@ -491,20 +759,21 @@ def oracle_libfit(case, call, rec):
     lf = rec["libfit"]
     if lf is None:
         return ["libfit: the library fit was not called"]
-    if lf[1][:3] != rec["pts0"][:3]:
+    if snap_values(lf[1]) != snap_values(rec["pts0"]):
         fails.append(f"libfit: X handed to the {case['kind']} library is not existing_points (shape {lf[1][2]})")
     y = np.asarray(lf[2])
     los = np.frombuffer(rec["los0"][0], dtype=rec["los0"][1]).reshape(rec["los0"][2])
     pts0 = np.frombuffer(rec["pts0"][0], dtype=rec["pts0"][1]).reshape(rec["pts0"][2])
     if case["kind"] == "gp":
-        if y.ravel().tobytes() != los.tobytes():
+        if np.asarray(y, dtype=float).ravel().tobytes() != np.asarray(los, dtype=float).tobytes():
             fails.append("libfit: y handed to GaussianProcessRegressor is not existing_losses")
     elif case["kind"] == "rf":
         from black_it.samplers.random_forest import RandomForestSampler
 
         try:
             with np.errstate(all="ignore"):
-                want = RandomForestSampler.prepare_data_for_classifier(pts0.copy(), los.copy(), 3)[1]
+                want = RandomForestSampler.prepare_data_for_classifier(
+                    pts0.copy(), los.copy(), case.get("opts", {}).get("n_classes", 3))[1]
         except ValueError:
             want = None  # the given history has no quantile classes (negative losses): the library cannot have been reached
         if want is None or y.shape != want.shape or (y != want).any():
@@ -513,7 +782,7 @@ def oracle_libfit(case, call, rec):
         import black_it.samplers.xgboost as xm
 
         hi, lo = float(xm.MAX_FLOAT32 - xm.EPS_FLOAT32), float(xm.MIN_FLOAT32 + xm.EPS_FLOAT32)
-        want = np.array([lo if v <= -F32MAX else hi if v >= F32MAX else v for v in los.tolist()])
+        want = np.array([lo if v <= -F32MAX else hi if v >= F32MAX else v for v in los.tolist()], dtype=float)
         if y.shape != want.shape or y.astype(float).tobytes() != want.tobytes():
             bad = [i for i in range(min(len(y), len(want))) if float(y[i]) != want[i]]
             fails.append(f"libfit: y handed to XGBRegressor differs from existing_losses with float32-overflowing entries "
@@ -530,10 +799,11 @@ def oracle_bb_call(case, call, rec):
     """One BestBatchSampler.sample_batch: ValueError iff too few points; every row = one of the k lowest-loss points
     displaced by 1..range-1 steps of its own precision on 1..dims distinct coordinates, clipped, snapped."""
     fails = []
-    k, rng_ = rec["k"], case["opts"]["range"]
+    cfg = call["cfg"]  # round 4: the space / options IN FORCE for this call
+    k, rng_ = rec["k"], cfg["range"]
     pts, los = unsnap(rec["pts0"]), unsnap(rec["los0"])  # the history as it was when sample_batch was entered
     n = len(pts)
-    lo, up, pr = ([Fraction(F(x)) for x in case[key]] for key in ("lower", "upper", "prec"))
+    lo, up, pr = ([Fraction(F(x)) for x in cfg[key]] for key in ("lower", "upper", "prec"))
     dims = len(pr)
     if n < k:
         if not rec["raised"] or rec["raised"][0] != "ValueError":
@@ -547,7 +817,7 @@ def oracle_bb_call(case, call, rec):
         return [f"shape: pre-snap {raw.shape}, returned {out.shape}, expected {(k, dims)}"]
     if len(rec["choices"]) != k:
         return [f"draws: {len(rec['choices'])} parents drawn for a batch of {k}"]
-    exact = case["exact"]
+    exact = cfg["exact"]
     for r, (p, shocks) in enumerate(rec["choices"]):
         if not 0 <= p < k:
             fails.append(f"top-k: row {r}: candidate position {p} not below batch size {k}")
@@ -570,7 +840,7 @@ def oracle_bb_call(case, call, rec):
             pj, rj = Fraction(float(pts[i, j])), Fraction(float(raw[r, j]))
             sh = [s for s in shocks if s[0] == j]
             if not sh:
-                if raw[r, j].tobytes() != pts[i, j].tobytes():
+                if not same_float(raw[r, j], pts[i, j]):
                     fails.append(f"displacement: row {r} coordinate {j} was not drawn but changed {pts[i, j]!r} -> {raw[r, j]!r}")
                 continue
             _, size, bit = sh[0]
@@ -581,6 +851,11 @@ def oracle_bb_call(case, call, rec):
             s = size if bit == 1 else -size
             want = min(max(pj + s * pr[j], lo[j]), up[j])
             ok = rj == want if exact else abs(rj - want) <= TOL * max(1, abs(want))
+            if not exact and ok:  # measured margin of the 2^-40 tolerance (reported in the coverage)
+                MARGIN["bb_tolerant_max_error_over_tolerance"] = max(
+                    MARGIN["bb_tolerant_max_error_over_tolerance"], float(abs(rj - want) / (TOL * max(1, abs(want)))))
+                MARGIN["bb_tolerant_min_step_over_tolerance"] = min(
+                    MARGIN["bb_tolerant_min_step_over_tolerance"], float(pr[j] / (TOL * max(1, abs(want)))))
             if not ok:
                 fails.append(f"displacement: row {r} coordinate {j}: parent {pts[i, j]!r} {s:+d} step(s) of {float(pr[j])!r} clipped "
                              f"to [{float(lo[j])!r}, {float(up[j])!r}] is {float(want)!r}, the code produced {raw[r, j]!r}")
@@ -595,16 +870,17 @@ def oracle_bb_outputs_only(case, call, rec, adm):
     """Uses nothing recorded inside the call: every returned row must be explainable by SOME admissible parent and SOME
     steps 1 <= |s| <= range-1 (or no step) per coordinate, clipped and snapped."""
     fails = []
-    rng_ = case["opts"]["range"]
+    cfg = call["cfg"]
+    rng_ = cfg["range"]
     pts, out = unsnap(rec["pts0"]), rec["out"]
-    lo, up, pr = ([Fraction(F(x)) for x in case[key]] for key in ("lower", "upper", "prec"))
+    lo, up, pr = ([Fraction(F(x)) for x in cfg[key]] for key in ("lower", "upper", "prec"))
     dims = len(pr)
     grids = [[Fraction(float(g)) for g in col] for col in call["grid"]]
 
     def snaps(j, v):
         # on decimal spaces the code's value is v up to two roundings: near a mid-point either neighbour can come out
         best = min(abs(v - g) for g in grids[j])
-        slack = 0 if case["exact"] else 2 * TOL * max(1, abs(v))
+        slack = 0 if cfg["exact"] else 2 * TOL * max(1, abs(v))
         return {g for g in grids[j] if abs(v - g) * SNAP_DEN <= best * SNAP_NUM + slack * SNAP_DEN}
 
     reach = {}
@@ -616,7 +892,7 @@ def oracle_bb_outputs_only(case, call, rec, adm):
             move = set()
             for s in list(range(-(rng_ - 1), 0)) + list(range(1, rng_)):
                 v = min(max(pj + s * pr[j], lo[j]), up[j])
-                if not case["exact"]:
+                if not cfg["exact"]:
                     v = Fraction(float(v))  # the code rounds; the snap of the rounded value is what can be returned
                 move |= snaps(j, v)
             per.append((stay, move))
@@ -660,9 +936,11 @@ def nats(xs):
 
 def unsnap(sn):
     """snapshot -> float64 array (a non-float64 snapshot gives an empty array: the Coq comparison then fails)."""
-    if sn[1] != "<f8":
-        return np.zeros((0,) * len(sn[2]))
-    return np.frombuffer(sn[0], dtype=sn[1]).reshape(sn[2])
+    if sn[1] == "<f8":
+        return np.frombuffer(sn[0], dtype=sn[1]).reshape(sn[2])
+    if sn[1] in ("<f4", "<f2", "<i8", "<i4"):  # round 4: exact conversions (int64 histories are generated below 2^53)
+        return np.frombuffer(sn[0], dtype=sn[1]).reshape(sn[2]).astype(np.float64)
+    return np.zeros((0,) * len(sn[2]))
 
 
 def emit_sb(call, rec, tol):
@@ -674,13 +952,14 @@ def emit_sb(call, rec, tol):
 
 
 def emit_bb(case, call, rec):
-    lo, up, pr = ([F(x) for x in case[key]] for key in ("lower", "upper", "prec"))
+    cfg = call["cfg"]
+    lo, up, pr = ([F(x) for x in cfg[key]] for key in ("lower", "upper", "prec"))
     ch = clist([f"({cnat(p)}, {clist([f'({cnat(j)}, {cnat(max(s, 0))}, {cbool(b == 1)})' for j, s, b in sh])})"
                 for p, sh in rec["choices"]])
     raised = rec["raised"] is not None and rec["raised"][0] == "ValueError"
     raw = rec["raw"] if rec["raw"] is not None else []
     out = rec["out"] if rec["out"] is not None else []
-    return (f"BB {cbool(case['exact'])} {cnat(rec['k'])} {cnat(case['opts']['range'])} {fll(lo)} {fll(up)} {fll(pr)} "
+    return (f"BB {cbool(cfg['exact'])} {cnat(rec['k'])} {cnat(cfg['range'])} {fll(lo)} {fll(up)} {fll(pr)} "
             f"{fmat(call['grid'])} {fmat(unsnap(rec['pts0']))} {fll(unsnap(rec['los0']))} {nats(rec['order'])} {ch} "
             f"{cbool(raised)} {fmat(raw)} {fmat(out)} {fmat(unsnap(rec['pts1']))} {fll(unsnap(rec['los1']))}")
 
@@ -826,45 +1105,412 @@ def gen_case(rng, kind, idx):
             "flavour": flavour}
 
 
+# ------------------------------------------------------------------ round 4: generator sweep
+# (representation of the history, object reuse, attributes assigned after construction, sizes at thresholds, non-default
+#  configurations, sequences with a rejected call, almost-tied / far-from-origin values)
+NEW_FLAVOURS = ["zeros", "close", "farlvl", "intlike", "smallscale"]
+STYLES = ["std", "far", "tiny", "huge", "int", "wide"]
+
+
+def gen_losses4(rng, n, flavour):
+    if flavour in FLAVOURS:
+        return gen_losses(rng, n, flavour)
+    if flavour == "zeros":  # signed zeros and subnormals (ties between 0.0 and -0.0; 5e-324 is NOT a tie with 0.0)
+        return [rng.choice([0.0, -0.0, 5e-324, -5e-324, 1e-310, 0.5, -0.5, 0.0]) for _ in range(n)]
+    if flavour == "close":  # differ in the last bits only: ties under isclose / rounding / float32
+        return [1.0 + rng.randint(0, 3) * 2.0 ** -52 for _ in range(n)]
+    if flavour == "farlvl":  # 1e8 level, O(1) spread: ties in float32
+        return [1e8 + rng.randint(0, 4) + rng.choice([0.0, 0.5]) for _ in range(n)]
+    if flavour == "intlike":
+        return [float(rng.randint(-3, 6)) for _ in range(n)]
+    return [round(rng.uniform(-2, 5), 3) * 1e-9 for _ in range(n)]  # smallscale: differences far below any absolute eps
+
+
+def gen_space4(rng, exact, style, maxdims):
+    if style in ("std", "wide"):
+        if style == "wide":
+            lower, upper, prec = [], [], []
+            for _ in range(rng.randint(5, 12)):  # more than 10 coordinates
+                lo_, up_, pr_ = gen_space(rng, exact, 1)
+                lower, upper, prec = lower + lo_, upper + up_, prec + pr_
+            return lower, upper, prec
+        return gen_space(rng, exact, maxdims)
+    dims = rng.randint(1, maxdims)
+    lower, upper, prec = [], [], []
+    for _ in range(dims):
+        n = rng.randint(2, 24)
+        if style == "int":  # integer grid (history given as int64)
+            d = float(rng.choice([1, 1, 2, 5]))
+            lo = float(rng.randint(-40, 40))
+            up = lo + d * n
+        elif exact:
+            m, a = rng.choice(DYADIC_PREC)
+            d = m / float(1 << a)
+            if style == "tiny":
+                d /= 1024.0
+            if style == "huge":
+                d *= float(1 << 24)
+            lo = d * rng.randint(-40, 40)
+            if style == "far":  # far from the origin relative to the spread
+                lo += float(1 << 20) * rng.choice([1, -1, 3])
+            up = lo + d * n + (d / 2 if rng.below(4) == 0 else 0.0)
+        else:
+            if style == "tiny":
+                d = rng.choice([1e-4, 3e-4, 5e-5 * 4])
+                lo = rng.choice([0.0, -2e-3, 1e-3])
+            elif style == "huge":
+                d = rng.choice([1e3, 2.5e4, 7e2])
+                lo = rng.choice([0.0, -3e5, 1e6])
+            else:  # far
+                d = rng.choice(DECIMAL_PREC)
+                lo = rng.choice([1e5, -1e6, 1e7, 123456.7])
+            up = lo + d * n + (d * 0.37 if rng.below(4) == 0 else 0.0)
+            if style != "tiny":
+                up = round(up, 7)
+        lower.append(lo)
+        upper.append(up)
+        prec.append(d)
+    return lower, upper, prec
+
+
+def gen_hist4(rng, kind, sp, n, flavour, offgrid=False):
+    """n history rows on the grid of the space sp (hex dict) and n losses"""
+    ss = make_space(sp)
+    prec = [F(x) for x in sp["prec"]]
+    rows = []
+    for _ in range(n):
+        row = [float(rng.choice(list(g))) for g in ss.param_grid]
+        if offgrid:
+            row = [v + prec[j] / 4 * rng.randint(-2, 2) for j, v in enumerate(row)]
+        rows.append(row)
+    if n >= 2 and rng.below(3) == 0:
+        rows[rng.below(n)] = [float(g[rng.choice([0, -1])]) for g in ss.param_grid]  # a point on the boundary
+    if kind in ("cors", "gp"):
+        seen, uniq = set(), []
+        for r in rows:
+            if tuple(r) not in seen:
+                seen.add(tuple(r))
+                uniq.append(r)
+        rows = uniq
+    losses = gen_losses4(rng, len(rows), flavour)
+    if kind == "rf" and rng.below(4):  # negative first quantiles make prepare_data_for_classifier raise (outside C16)
+        losses = [abs(x) if abs(x) < 1e30 else x for x in losses]
+    return [[H(v) for v in r] for r in rows], [H(x) for x in losses]
+
+
+def hexsp(lower, upper, prec, exact):
+    return {"lower": [H(x) for x in lower], "upper": [H(x) for x in upper], "prec": [H(x) for x in prec], "exact": exact}
+
+
+def pick_repr(rng, kind, style, exact, flavour):
+    pr = ["f8", "fortran", "rows2", "cols", "rev"]
+    if style in ("std", "wide", "int") and (exact or kind != "bestbatch"):
+        pr.append("f4")  # exactly representable (dyadic grid) or not a best-batch parent
+    if style == "int":
+        pr += ["i8", "i8"]
+    lr = ["f8", "f4", "step2", "col", "rev"]
+    if flavour == "intlike":
+        lr += ["i8", "i8"]
+    return {"pts": rng.choice(pr), "los": rng.choice(lr)}
+
+
+def min_hist(kind, bs, dims):
+    n = bs
+    if kind in ("cors", "gp", "rf", "xgb"):
+        n = max(n, 3)
+    if kind == "cors":
+        n = max(n, dims + 2)
+    return n
+
+
+def flavours_for(kind):
+    if kind == "gp":
+        return ["plain", "ties", "big", "f32", "zeros", "close", "farlvl", "intlike", "smallscale"]
+    if kind == "cors":
+        return ["plain", "ties", "big", "f32", "mixed", "zeros", "close", "farlvl", "intlike", "smallscale"]
+    return FLAVOURS + NEW_FLAVOURS * 2
+
+
+def gen_sweep_case(rng, kind, idx):
+    cheap = kind in ("bestbatch", "stub", "halton", "rseq", "uniform", "pso")
+    style = STYLES[idx % len(STYLES)] if rng.below(3) else rng.choice(STYLES)
+    if style == "wide" and kind in ("gp", "cors"):
+        style = "std"
+    exact = style == "int" or (kind in ("bestbatch", "stub") and rng.below(3) != 0)
+    lower, upper, prec = gen_space4(rng, exact, style, 4 if cheap else 3)
+    sp = hexsp(lower, upper, prec, exact)
+    dims = len(prec)
+    bs = rng.randint(1, 4) if rng.below(4) else rng.randint(5, 12)  # also batches larger than 4
+    if kind in ("gp", "cors", "rf", "xgb"):
+        bs = min(bs, 5)
+    flavour = rng.choice(flavours_for(kind))
+    opts, ctor, first = {}, {}, {}
+    n = min_hist(kind, bs, dims) + rng.choice([0, 0, 1, 2, 5, 9])  # often exactly the smallest admissible history
+    if kind == "bestbatch":
+        opts = {"a": rng.choice([3.0, 1.0, 0.5, 8.0, 0.1]), "b": rng.choice([1.0, 3.0, 0.5, 10.0]),
+                "range": rng.choice([2, 2, 3, 5, 8, 30]), "passes": rng.choice([0, 1, 5])}
+        if rng.below(4) == 0:
+            opts["np_scalars"] = True
+        elif rng.below(4) == 0:
+            opts["int_ab"] = True
+            opts["a"], opts["b"] = float(rng.randint(1, 4)), float(rng.randint(1, 3))
+        if rng.below(2) == 0:  # constructed with other values, then reassigned (the assigned ones are in force)
+            ctor["range"] = rng.choice([opts["range"] + rng.randint(1, 6), max(2, opts["range"] - 1)])
+            if rng.below(2) == 0:
+                ctor["a"], ctor["b"] = 2.0, 2.0
+        if rng.below(6) == 0:
+            n = max(0, bs - rng.randint(1, 2))  # a rejected first call (too short a history)
+    if kind == "stub":
+        modes = ["view", "memo", "bcast", "f32", "close", "far", "tiny", "classes", "ties", "random", "huge"]
+        pool_kind = rng.choice(["real", "offgrid", "offgrid", "small"])
+        psize = rng.randint(14, 40)
+        opts = {"mode": modes[idx % len(modes)], "pool": pool_kind, "pool_size": psize, "passes": rng.choice([0, 1, 2, 5])}
+        if pool_kind != "real":
+            if pool_kind == "small":
+                psize = rng.randint(0, bs)  # includes a pool of exactly batch_size rows
+                opts["passes"] = 0
+            rows_sets = []
+            for _ in range(6):
+                rows = []
+                for _ in range(psize):
+                    if exact:
+                        row = [lower[j] + prec[j] / 4 * rng.randint(-6, 4 * 26) for j in range(dims)]
+                    else:
+                        row = [rng.uniform(lower[j] - prec[j], upper[j] + prec[j]) for j in range(dims)]
+                    rows.append([H(v) for v in row])
+                if len(rows) > 2 and rng.below(2) == 0:
+                    rows[-1] = rows[0]
+                rows_sets.append(rows)
+            opts["pool_rows"], opts["pool_size"] = rows_sets, psize
+            opts["pool_memo"] = rng.below(2) == 0
+        if pool_kind != "small" and rng.below(5) == 0:
+            opts["fit_raises"] = [rng.choice([1, 2])]  # a failing fit, then normal calls
+    if kind in ("halton", "rseq", "uniform", "pso", "cors", "rf", "xgb", "gp"):
+        opts = {"cfg": True, "passes": rng.choice([0, 1, 5])}
+        if kind == "pso":
+            opts.update(pso_global=rng.below(3) != 0, inertia=rng.choice([0.9, 0.5]), c1=rng.choice([0.1, 1.5]),
+                        c2=rng.choice([0.1, 1.5]))
+        if kind == "cors":
+            opts.update(verbose=rng.below(2) == 0, rho0=rng.choice([0.5, 0.1]), p=rng.choice([1.0, 2.0]),
+                        max_samples=rng.choice([40, 12]))
+        if kind == "rf":
+            opts.update(n_classes=rng.choice([3, 4, 10]), criterion=rng.choice(["gini", "entropy"]))
+        if kind == "xgb":
+            opts.update(n_estimators=rng.choice([4, 10]), max_depth=rng.choice([2, 5]))
+        if kind == "gp":
+            opts.update(acq=rng.choice(["mean", "mean", "expected_improvement"]), jitter=rng.choice([0.1, 0.0, 1.0]),
+                        restarts=rng.choice([0, 1]))
+    if kind != "pso" and rng.below(4) == 0:
+        ctor["bs"] = rng.choice([bs + 1, max(1, bs - 1), 1, bs + 3])  # batch_size reassigned after construction
+        if ctor["bs"] == bs:
+            ctor.pop("bs")
+    if kind not in ("pso", "cors") and rng.below(4) == 0 and "passes" in opts:
+        ctor["passes"] = rng.choice([0, 3])  # max_deduplication_passes reassigned after construction
+    offgrid = kind == "bestbatch" and style != "int" and rng.below(5) == 0
+    pts, losses = gen_hist4(rng, kind, sp, n, flavour, offgrid)
+    rp = pick_repr(rng, kind, style, exact, flavour) if rng.below(4) else {}
+    # ---- the sequence of calls
+    calls = rng.randint(2, 4) if cheap or kind == "xgb" else rng.randint(1, 3)
+    steps, cur_n, cur_sp, cur_bs, grown = [], len(pts), sp, bs, False
+    cur_style, cur_exact = style, exact
+    for _ in range(calls - 1):
+        ops = ["grow", "other", "other", "inplace", "same"]
+        if kind not in ("cors", "gp"):
+            ops.append("feed_output")
+        if kind != "pso":
+            ops.append("space")
+        if grown:
+            ops = [x for x in ops if x != "inplace"]  # the in-place script is written for the last explicit history
+        op = rng.choice(ops)
+        step = {"op": op}
+        fl2 = rng.choice(flavours_for(kind))
+        if op in ("grow", "feed_output"):
+            grown = True
+        elif op == "inplace":
+            step["pts"], step["losses"] = gen_hist4(rng, "plain-rows", cur_sp, cur_n, fl2)
+            if kind in ("cors", "gp"):  # keep the rows distinct: rotate the existing ones, new losses
+                step["pts"] = None
+        elif op in ("other", "space"):
+            if op == "space":
+                cur_style = rng.choice(["std", "far", "int", "wide"] if kind not in ("gp", "cors") else ["std", "far", "int"])
+                cur_exact = cur_style == "int" or (kind in ("bestbatch", "stub") and rng.below(3) != 0)
+                lo2, up2, pr2 = gen_space4(rng, cur_exact, cur_style, 4 if cheap else 3)
+                cur_sp = hexsp(lo2, up2, pr2, cur_exact)
+                step["space"] = cur_sp
+                step["op"] = "other"
+            d2 = len(cur_sp["prec"])
+            base = min_hist(kind, cur_bs, d2)
+            n2 = rng.choice([base, base + 1, cur_n, max(base, cur_n - 1), base + rng.randint(0, 9)])  # same / other length
+            if kind == "bestbatch" and rng.below(6) == 0:
+                n2 = max(0, cur_bs - 1)  # a rejected call in the middle of the sequence
+            step["pts"], step["losses"] = gen_hist4(rng, kind, cur_sp, n2, fl2,
+                                                    kind == "bestbatch" and cur_style != "int" and rng.below(6) == 0)
+            if rng.below(3) == 0:
+                step["repr"] = pick_repr(rng, kind, cur_style, cur_exact, fl2)
+            cur_n, grown = len(step["pts"]), False
+        # attributes assigned before this call
+        attrs = {}
+        if kind == "bestbatch" and rng.below(3) == 0:
+            attrs["perturbation_range"] = rng.choice([2, 3, 4, 9])
+        if kind == "bestbatch" and rng.below(6) == 0:
+            attrs["a"], attrs["b"] = rng.choice([0.3, 5.0]), rng.choice([0.3, 5.0])
+        if kind != "pso" and rng.below(5) == 0:
+            nb = rng.choice([1, cur_bs + 1, max(1, cur_bs - 1), cur_bs + 2])
+            if kind in ("gp", "cors", "rf", "xgb"):
+                nb = min(nb, 5)
+            if nb <= 12 and (kind != "stub" or opts.get("pool") != "small"):
+                attrs["batch_size"] = nb
+                cur_bs = nb
+        if rng.below(6) == 0:
+            attrs["random_state"] = rng.randint(0, 10 ** 6)
+        if kind == "gp" and rng.below(4) == 0:
+            attrs["acquisition"] = rng.choice(["mean", "expected_improvement"])
+        if kind not in ("pso", "cors") and opts.get("pool") != "small" and rng.below(8) == 0:
+            attrs["max_deduplication_passes"] = rng.choice([0, 1, 4])
+        if attrs:
+            step["attrs"] = attrs
+        if kind in ("bestbatch", "stub", "xgb", "rf") and rng.below(3 if kind == "bestbatch" else 5) == 0:
+            # a direct sample_batch(k): below / above self.batch_size, at and just above the history length
+            step["direct_k"] = rng.choice([1, cur_bs + 1, cur_bs + 3, max(1, cur_bs - 1), max(cur_n, 1), cur_n + 1, cur_n + 1])
+            if kind != "bestbatch":
+                step["direct_k"] = min(step["direct_k"], 12)
+        steps.append(step)
+    if kind in ("bestbatch", "stub") and rng.below(8) == 0:
+        first["direct_k"] = rng.choice([1, bs + 2, max(len(pts), 1), len(pts) + 1])
+    nxt = [[H(x) for x in gen_losses4(rng, 40, rng.choice(["plain", "ties", "zeros", "close"]))] for _ in range(calls)]
+    case = {"kind": kind, **{k: sp[k] for k in ("lower", "upper", "prec")}, "bs": bs, "seed": rng.randint(0, 10 ** 6),
+            "pts": pts, "losses": losses, "calls": calls, "next_losses": nxt, "opts": opts, "exact": exact,
+            "flavour": flavour, "style": style, "sweep": 4, "steps": steps}
+    if rp:
+        case["repr"] = rp
+    if ctor:
+        case["ctor"] = ctor
+    if first:
+        case["first"] = first
+    return case
+
+
+def gen_gp_big(rng):
+    """Threshold of gaussian_process.py (_BIG_DATASET_SIZE_WARNING_THRESHOLD = 500): a history of 501 distinct points"""
+    lower, upper, prec = [0.0, -1.0], [2.0, 1.0], [0.05, 0.05]
+    sp = hexsp(lower, upper, prec, False)
+    ss = make_space(sp)
+    cells = [(float(a), float(b)) for a in ss.param_grid[0] for b in ss.param_grid[1]]
+    rng.shuffle(cells)
+    n = rng.choice([501, 501, 502, 500])
+    rows = [[H(a), H(b)] for a, b in cells[:n]]
+    losses = [H(round((F(r[0]) - 1.0) ** 2 + F(r[1]) ** 2 + rng.uniform(0, 0.05), 6)) for r in rows]
+    return {"kind": "gp", **{k: sp[k] for k in ("lower", "upper", "prec")}, "bs": 2, "seed": rng.randint(0, 10 ** 6),
+            "pts": rows, "losses": losses, "calls": 1, "next_losses": [[]], "exact": False, "flavour": "plain",
+            "style": "gp-501", "sweep": 4, "alarm": 240,
+            "opts": {"cfg": True, "passes": 1, "restarts": 0, "acq": rng.choice(["mean", "expected_improvement"])}}
+
+
+def int_points_probe():
+    """FINDING (round 4): integer-typed existing_points in a space with a fractional precision - the shifted coordinate is
+    written back into the int64 copy of the parent and truncated towards zero (best_batch.py:145 `sampled_point[index] +=
+    shift`).  A fixed case, so that the finding is reported by every run."""
+    sp = hexsp([0.0, 0.0], [5.0, 5.0], [0.5, 0.25], True)
+    rows = [[1.0, 2.0], [3.0, 4.0], [2.0, 2.0], [4.0, 1.0], [1.0, 4.0]]
+    return {"kind": "bestbatch", **{k: sp[k] for k in ("lower", "upper", "prec")}, "bs": 2, "seed": 3,
+            "pts": [[H(v) for v in r] for r in rows], "losses": [H(x) for x in [1.0, 2.0, 3.0, 4.0, 0.5]], "calls": 2,
+            "steps": [{"op": "same"}], "next_losses": [[], []], "opts": {"a": 3.0, "b": 1.0, "range": 2, "passes": 0},
+            "exact": True, "flavour": "plain", "style": "int-points-fractional-precision", "sweep": 4,
+            "repr": {"pts": "i8", "los": "f8"}, "finding_probe": "int-points-fractional-precision"}
+
+
 def gen_clip_case(rng):
     n = rng.randint(0, 8)
     fl_ = rng.choice(FLAVOURS)
     return {"kind": "clip", "losses": [H(x) for x in gen_losses(rng, n, fl_)], "flavour": fl_}
 
 
+def gen_clip_case4(rng):
+    """round 4: float32 / int64 / strided loss arrays, signed zeros, almost-tied and far-level values"""
+    n = rng.randint(0, 9)
+    fl_ = rng.choice(FLAVOURS + NEW_FLAVOURS)
+    lr = rng.choice(["f4", "f4", "step2", "col", "rev", "f8"] + (["i8", "i8"] if fl_ == "intlike" else []))
+    return {"kind": "clip", "losses": [H(x) for x in gen_losses4(rng, n, fl_)], "flavour": fl_, "repr": {"los": lr},
+            "sweep": 4}
+
+
 def run_clip(case):
     import black_it.samplers.xgboost as xm
 
-    y = np.array([F(x) for x in case["losses"]], dtype=float)
-    y0 = y.copy()
+    clip = xm.XGBoostSampler._clip_losses  # noqa: SLF001
+    _, y, bases = materialise([], case["losses"], 1, case.get("repr"))
+    y0 = np.array(y, copy=True)
+    b0 = [b.tobytes() for b in bases]
     with warnings.catch_warnings():
         warnings.simplefilter("ignore")
-        ret = xm.XGBoostSampler._clip_losses(y)  # noqa: SLF001
+        ret = clip(y)
+        ret_then = np.array(ret, copy=True)
+        # round 4: the function is pure - a later call on other arrays must not change an earlier result (shared buffers)
+        clip(np.full(len(y0), 1e39))
+        clip(np.full(len(y0), -7.0))
+        clip(np.array([-np.inf, 2.0] * len(y0)))
     hi, lo = float(xm.MAX_FLOAT32 - xm.EPS_FLOAT32), float(xm.MIN_FLOAT32 + xm.EPS_FLOAT32)
-    ro = y0.copy()
-    ro.flags.writeable = False
+    _, ro, ro_bases = materialise([], case["losses"], 1, case.get("repr"))
+    set_writeable((ro,), ro_bases, False)
     err = None
     try:
         with warnings.catch_warnings():
             warnings.simplefilter("ignore")
-            xm.XGBoostSampler._clip_losses(ro)  # noqa: SLF001
+            clip(ro)
     except Exception as e:  # noqa: BLE001
         err = f"{type(e).__name__}: {e}"
-    return {"y0": y0, "after": y, "ret": np.array(ret, copy=True), "hi": hi, "lo": lo, "ro_err": err,
-            "maxf": float(xm.MAX_FLOAT32), "minf": float(xm.MIN_FLOAT32)}
+    return {"y0": y0, "after": np.array(y, copy=True), "ret": ret_then, "ret_later": np.array(ret, copy=True), "hi": hi,
+            "lo": lo, "ro_err": err, "maxf": float(xm.MAX_FLOAT32), "minf": float(xm.MIN_FLOAT32),
+            "bases_ok": b0 == [b.tobytes() for b in bases]}
 
 
 def oracle_clip(case, o):
     fails = []
-    if o["after"].tobytes() != o["y0"].tobytes():
-        i = int(np.argwhere(o["after"] != o["y0"])[0][0])
+    if o["after"].tobytes() != o["y0"].tobytes() or o["after"].dtype != o["y0"].dtype:
+        idx = np.argwhere(o["after"] != o["y0"])
+        i = int(idx[0][0]) if len(idx) else 0
         fails.append(f"modified: xgb: _clip_losses changed its argument: y[{i}] {o['y0'][i]!r} -> {o['after'][i]!r}")
+    if not o["bases_ok"]:
+        fails.append("modified: xgb: _clip_losses changed the array its argument is a view of")
     if o["ro_err"]:
         fails.append(f"modified: xgb: _clip_losses wrote into a read-only array ({o['ro_err']})")
     want = [o["lo"] if v <= o["minf"] else o["hi"] if v >= o["maxf"] else v for v in o["y0"].tolist()]
-    if o["ret"].tolist() != want:
+    if [float(v).hex() for v in o["ret"].tolist()] != [float(v).hex() for v in want]:
         fails.append("clip: returned losses are not the argument with float32-overflowing entries replaced")
+    if o["ret_later"].tobytes() != o["ret"].tobytes():
+        fails.append("clip: the array returned by _clip_losses was changed by later calls on other arrays")
     return fails
+
+
+def clip_threads():
+    """round 4: _clip_losses is a pure static function - calls from several threads give the single-thread results"""
+    import threading
+
+    import black_it.samplers.xgboost as xm
+
+    clip = xm.XGBoostSampler._clip_losses  # noqa: SLF001
+    arrays = [np.array([1e40, -1e40, float(i), np.inf, -np.inf, 3.5e38][: 1 + i % 6] * (1 + i % 3), dtype=float) for i in range(24)]
+    with warnings.catch_warnings():
+        warnings.simplefilter("ignore")
+        ref = [np.array(clip(a.copy()), copy=True) for a in arrays]
+        got = [None] * len(arrays)
+        keep = [a.copy() for a in arrays]
+
+        def work(t):
+            for _ in range(20):
+                for i in range(t, len(arrays), 4):
+                    got[i] = np.array(clip(arrays[i]), copy=True)
+
+        with warnings.catch_warnings():
+            warnings.simplefilter("ignore")
+            ths = [threading.Thread(target=work, args=(t,)) for t in range(4)]
+            for t in ths:
+                t.start()
+            for t in ths:
+                t.join()
+    bad = [i for i in range(len(arrays)) if got[i] is None or got[i].tobytes() != ref[i].tobytes()
+           or arrays[i].tobytes() != keep[i].tobytes()]
+    return bad
 
 
 # ------------------------------------------------------------------ one case end to end
@@ -909,8 +1555,15 @@ def evaluate(case, stats):
     for obs in (obs_w, obs_r):
         for c, call in enumerate(obs["calls"]):
             stats[f"{kind}:{'error:' + call['err'].split(':')[0] if call['err'] else 'ok'}"] += 1
+            if obs is obs_w and case.get("sweep"):
+                stats[f"op:{call['cfg']['op']}{':direct_k' if call['cfg']['direct_k'] is not None else ''}"] += 1
             if call["err"] == "Timeout":
                 continue
+            if kind == "stub" and call["err"] and "stub fit failure" not in call["err"]:
+                # round 4: the stub's callbacks never raise (but for the scripted fit failure): sample() must RETURN the
+                # batch_size candidates (e.g. read-only / memoised predictions must not be written into)
+                fails.append(f"returns: stub: sample() #{c} raised {call['err']} although pool, fit and predict succeeded"
+                             + (" [read-only run]" if obs["readonly"] else ""))
             sbs = sb_calls(call["events"])
             if kind in SURROGATES:
                 for sb in sbs:
@@ -943,12 +1596,19 @@ def evaluate(case, stats):
                                      {"nontrivial": len(rec["pool"]) > rec["k"] >= 1 and len(set(P.tolist())) > 1}))
             if kind == "bestbatch":
                 for sb in sbs:
-                    rec, problem = parse_bb_call(sb, len(case["prec"]))
+                    rec, problem = parse_bb_call(sb, len(call["cfg"]["prec"]))
                     if rec is None:
                         structure.append(problem)
+                        # round 4: the draws could not be followed, but the outputs-only clause needs nothing recorded inside
+                        # the call: it still gives a failing input when the returned rows are not reachable
+                        los_ = unsnap(sb["los0"])
+                        if sb["out"] is not None and not sb["raised"] and sb["out"].ndim == 2 and len(los_) >= sb["k"] \
+                                and sb["out"].shape[1] == len(call["cfg"]["prec"]):
+                            fails += oracle_bb_outputs_only(case, call, {"pts0": sb["pts0"], "out": sb["out"]},
+                                                            set(admissible_parents(los_, sb["k"])))
                         continue
                     fails += oracle_bb_call(case, call, rec)
-                    stats[f"bb:{'raised' if rec['raised'] else 'exact' if case['exact'] else 'tolerant'}"] += 1
+                    stats[f"bb:{'raised' if rec['raised'] else 'exact' if call['cfg']['exact'] else 'tolerant'}"] += 1
                     if obs is obs_w:
                         lits.append(("B", emit_bb(case, call, rec), {"nontrivial": rec["raised"] is None}))
     seen, uniq = set(), []
@@ -977,6 +1637,16 @@ def run(chk, replay=None):
                 cases.append(gen_case(chk.rng, kind, i))
         for _ in range(n * 2):
             cases.append(gen_clip_case(chk.rng))
+        # round 4 (generator sweep): drawn AFTER the cases above, which therefore stay what they were for a given seed
+        n4 = 14 if chk.tier == "quick" else 170
+        for kind in ALL9 + ["stub"]:
+            for i in range(n4 * (2 if kind in ("bestbatch", "stub") else 1)):
+                cases.append(gen_sweep_case(chk.rng, kind, i))
+        for _ in range(n4 * 3):
+            cases.append(gen_clip_case4(chk.rng))
+        for _ in range(1 if chk.tier == "quick" else 4):
+            cases.append(gen_gp_big(chk.rng))
+        cases.append(int_points_probe())
     stats = Counter()
     all_lits = {"S": [], "B": []}
     origin = {"S": [], "B": []}
@@ -994,9 +1664,19 @@ def run(chk, replay=None):
         for t, lit, ctx in lits:
             all_lits[t].append(lit)
             origin[t].append(ci)
+        if case.get("sweep"):
+            stats[f"style:{case.get('style')}"] += 1
+            stats["repr:pts=%s,los=%s" % ((case.get("repr") or {}).get("pts", "f8"), (case.get("repr") or {}).get("los", "f8"))] += 1
+            for k_ in case.get("ctor") or {}:
+                stats[f"reassigned-after-construction:{k_}"] += 1
+            for st in case.get("steps") or []:
+                for k_ in st.get("attrs") or {}:
+                    stats[f"reassigned-between-calls:{k_}"] += 1
         for f in fails:
-            chk.violation({"kind": "oracle", "clause": clause(f), "sampler": case["kind"]},
-                          {"failed": "oracle:" + f, "all": fails, "case": case, "observed": summary})
+            desc = {"kind": "oracle", "clause": clause(f), "sampler": case["kind"]}
+            if case.get("finding_probe") and clause(f) in ("displacement", "descent"):
+                desc["input"] = case["finding_probe"]  # the designated input class of a recorded finding (findings.d)
+            chk.violation(desc, {"failed": "oracle:" + f, "all": fails, "case": case, "observed": summary})
         for s in structure:
             chk.violation({"kind": "correspondence", "name": "call-structure", "sampler": case["kind"]},
                           {"failed": "correspondence:" + s, "case": case, "observed": summary}, no_input=True)
@@ -1011,6 +1691,13 @@ def run(chk, replay=None):
                           {"failed": f"correspondence:{name} (model and implementation disagree; the property oracle found "
                                      "no failing input)", "case": cases[ci], "observed": results[ci][2],
                            "coq_case": all_lits[t][i][:4000]}, no_input=True)
+    if not replay:
+        bad_threads = clip_threads()
+        stats["clip:threaded-calls"] += 24 * 20
+        if bad_threads:
+            chk.violation({"kind": "oracle", "clause": "clip", "sampler": "xgb", "input": "threads"},
+                          {"failed": "oracle:clip: _clip_losses called from 4 threads returned other arrays than single-threaded "
+                                     f"(or changed its arguments) for the test arrays {bad_threads[:5]}", "case": {"kind": "clip-threads"}})
     for e in err_s + err_b:
         chk.violation({"kind": "correspondence", "name": "coqc"}, {"failed": "correspondence:coqc", "detail": e}, no_input=True)
     ncoq = len(all_lits["S"]) + len(all_lits["B"])
@@ -1026,6 +1713,7 @@ def run(chk, replay=None):
         "traces_validated_against_impl": ncoq - len(bad_s) - len(bad_b),
         "model_impl_disagreements": len(bad_s) + len(bad_b),
         "distribution": dict(sorted(stats.items())),
+        "measured_margins": dict(MARGIN),
     }
     return chk.finish(
         cov,
